@@ -547,6 +547,7 @@ class Overlay:
         self.traits = set()   # local traits whose impls are kept as trait impls
         self.global_substs = []
         self.cfgname = None
+        self.derive_guards = []
 
     def load(self, path, assumed=False):
         """assumed=True: every function contract of this overlay is emitted as an assumed contract
@@ -594,6 +595,11 @@ class Overlay:
             elif d == "@item":
                 for p in arg.split():
                     self.items.append((p, rel, i))
+            elif d == "@derive":
+                # `@derive crate::Hasher Clone`: the type-system assumption "derive(Clone) copies field-wise"
+                # is only valid while the derive is there
+                a = arg.split()
+                self.derive_guards.append((a[0], a[1:], rel, i))
             elif d == "@localtrait":
                 self.traits.add(arg)
             elif d == "@gsubst":
@@ -1440,6 +1446,14 @@ def assemble(repo, unit, cfg, opts=None):
     if missing:
         raise ExtractError("lost anchor: item(s) not found in source under config %s: %s"
                            % (cfg.name, ", ".join(missing)))
+    for path, names, f, l in ov.derive_guards:
+        it = table.get(path)
+        if it is None:
+            continue
+        for nm in names:
+            if nm not in it.derives:
+                LOST.append(("%s::%s" % (path, nm.lower()),
+                             "assumption lost: #[derive(%s)] is no longer on %s (contract %s:%d)" % (nm, path, f, l)))
     modules = {}
     for path, it in table.items():
         if path in wanted:
